@@ -1,4 +1,92 @@
-(* Properties/C03.v — Signature verification payload equals git's (work in progress). *)
+(* Properties/C03.v — Signature verification payload equals git's.
+   G = Model/SigPayload (go-git: stripHeaderSignatures, parseSignedBytes,
+   EncodeWithoutSignature / matchesSource) and Model/Commit, Model/Tag (the
+   scanners that fill Commit.Signature / Tag.Signature);
+   S = Spec/GitSig (git 2.39: parse_buffer_signed_by_header for commits,
+   parse_signature = parse_signed_buffer + two-slot remove_signature for tags).
+   Only statements here; proofs live in Proofs/C03*.v. *)
 From Coq Require Import List NArith ZArith Bool String.
-From GoGit Require Import Base.Out Model.ObjLines Model.Ident Model.Commit Model.Tag Model.SigPayload Spec.GitSig.
+From GoGit Require Import Base.Out Model.ObjLines Model.Ident Model.Commit Model.Tag Model.SigPayload
+     Spec.GitSig Spec.ObjWf Spec.SigGuards Proofs.C03Commit Proofs.C03CommitSig.
 Import ListNotations.
+Local Open Scope N_scope.
+
+(* FULL STATEMENT (property text): for every stored commit b that go-git decodes,
+     commit_payload b true c = S_payload b   and   c_sig c = S_sig b.
+   It is FALSE of the code as it is: *)
+Theorem C03_payload_commit_refuted : exists raw c,
+  decode_commit raw = Ok c /\ commit_payload raw true c <> fst (fst (git_commit_payload raw)).
+Proof.
+  exists (unhex "7472656520346238323564633634326362366562396130363065353462663864363932383866626565343930340a6770677369677820790a0a6d0a").
+  eexists. split; [vm_compute; reflexivity|]. vm_compute. discriminate.
+Qed.
+Print Assumptions C03_payload_commit_refuted.
+
+Theorem C03_sig_commit_refuted : exists raw c,
+  decode_commit raw = Ok c /\ c_sig c <> snd (fst (git_commit_payload raw)).
+Proof.
+  exists (unhex "7472656520346238323564633634326362366562396130363065353462663864363932383866626565343930340a67706773696720780a6770677369670a0a6d0a").
+  eexists. split; [vm_compute; reflexivity|]. vm_compute. discriminate.
+Qed.
+Print Assumptions C03_sig_commit_refuted.
+
+(* PARTIAL: for ALL byte strings (any number of gpgsig / gpgsig-sha256 headers in
+   any header position, continuation lines, any body) whose gpgsig-prefixed
+   header lines are "gpgsig " / "gpgsig-sha256 " headers, the bytes go-git's
+   stripHeaderSignatures emits are git's payload ... *)
+Theorem C03_strip_commit_partial : forall raw,
+  commit_sig_guard raw = true ->
+  strip_header_sigs raw = fst (fst (git_commit_payload raw)).
+Proof. exact strip_eq_pbsh. Qed.
+Print Assumptions C03_strip_commit_partial.
+
+(* ... hence the payload EncodeWithoutSignature hands to a verifier for a
+   freshly decoded commit is git's *)
+Theorem C03_payload_commit_partial : forall raw c,
+  decode_commit raw = Ok c -> commit_sig_guard raw = true ->
+  commit_payload raw true c = fst (fst (git_commit_payload raw)).
+Proof. intros raw c Hd Hg. rewrite (payload_fresh _ _ Hd). now apply strip_eq_pbsh. Qed.
+Print Assumptions C03_payload_commit_partial.
+
+(* ... and the signature the scanner accumulates in Commit.Signature is git's
+   signature buffer (additionally: every header line is LF-terminated) *)
+Theorem C03_sig_commit_partial : forall raw c,
+  decode_commit raw = Ok c -> commit_sig_guard raw = true -> hdr_terminated raw = true ->
+  c_sig c = snd (fst (git_commit_payload raw)).
+Proof. exact sig_eq_pbsh. Qed.
+Print Assumptions C03_sig_commit_partial.
+
+(* consequence: with the same verifier go-git and git reach the same verdict *)
+Theorem C03_accepts_iff_commit : forall (V : bytes -> bytes -> bool) raw c,
+  decode_commit raw = Ok c -> commit_sig_guard raw = true -> hdr_terminated raw = true ->
+  V (commit_payload raw true c) (c_sig c) =
+  V (fst (fst (git_commit_payload raw))) (snd (fst (git_commit_payload raw))).
+Proof.
+  intros V raw c Hd Hg Ht. rewrite (payload_fresh _ _ Hd), (strip_eq_pbsh _ Hg), (sig_eq_pbsh _ _ Hd Hg Ht). reflexivity.
+Qed.
+Print Assumptions C03_accepts_iff_commit.
+
+(* a freshly decoded commit always takes the raw-source path *)
+Theorem C03_fresh_matches_source : forall raw c,
+  decode_commit raw = Ok c -> commit_matches_source raw true c = true.
+Proof. exact matches_source_fresh. Qed.
+Print Assumptions C03_fresh_matches_source.
+
+(* tags: witnesses of the divergences forced by git's two-slot remove_signature *)
+Theorem C03_payload_tag_refuted : exists raw t p s,
+  decode_tag raw = Ok t /\ git_tag_payload raw = Some (Some (p, s)) /\ tag_payload raw true t <> p.
+Proof.
+  exists (unhex "6f626a65637420346238323564633634326362366562396130363065353462663864363932383866626565343930340a7479706520747265650a7461672076310a67706773696720610a67706773696720620a0a6d73670a2d2d2d2d2d424547494e20504750205349474e41545552452d2d2d2d2d0a").
+  do 3 eexists. split; [vm_compute; reflexivity|]. split; [vm_compute; reflexivity|]. vm_compute. discriminate.
+Qed.
+Print Assumptions C03_payload_tag_refuted.
+
+(* non-vacuity: a commit with three separated gpgsig regions, a gpgsig-sha256
+   region and continuation lines satisfies both guards, has a non-empty
+   signature, and its payload differs from the raw bytes *)
+Example C03_guards_nonvacuous :
+  let raw := unhex "7472656520346238323564633634326362366562396130363065353462663864363932383866626565343930340a67706773696720610a20620a617574686f722041203c6140623e2031202b303030300a67706773696720630a636f6d6d69747465722041203c6140623e2031202b303030300a6770677369672d73686132353620780a20790a67706773696720640a0a6d0a" in
+  commit_sig_guard raw = true /\ hdr_terminated raw = true /\
+  (exists c, decode_commit raw = Ok c /\ c_sig c = unhex "610a620a630a640a") /\
+  strip_header_sigs raw <> raw.
+Proof. vm_compute. repeat split; try reflexivity; [eexists; split; reflexivity|discriminate]. Qed.
